@@ -170,9 +170,9 @@ TagNewRef(t, x) ==
     /\ UNCHANGED <<st, mem, disk, cache, ndds>>
 
 \* generator variants: the script only says "call the allocator"; the answer is bound from the trace
-GenNewRef == /\ st = "open" /\ GenMode /\ Log("NewRef", [a |-> 0], [ret |-> "any"])
+GenNewRef == /\ st = "open" /\ GenMode /\ Log("NewRef", [a |-> 0], [ret |-> "any", fresh |-> TRUE])
              /\ UNCHANGED <<st, mem, disk, cache, ndds>>
-GenTagNewRef(t) == /\ st = "open" /\ GenMode /\ Log("TagNewRef", [tag |-> t], [ret |-> "any"])
+GenTagNewRef(t) == /\ st = "open" /\ GenMode /\ Log("TagNewRef", [tag |-> t], [ret |-> "any", fresh |-> TRUE])
                    /\ UNCHANGED <<st, mem, disk, cache, ndds>>
 
 \* Hnumber(tag | wildcard)
